@@ -10,8 +10,9 @@ import io
 class FaultyFile(io.TextIOBase):
     """Text file wrapper that counts write() calls and raises OSError(ENOSPC) on the k-th one."""
 
-    def __init__(self, real, fail_at=None, log=None):
+    def __init__(self, real, fail_at=None, log=None, bare=False):
         super().__init__()
+        self.bare = bare
         self._real = real
         self.name = real.name
         self.nwrite = 0
@@ -25,6 +26,8 @@ class FaultyFile(io.TextIOBase):
         self.nwrite += 1
         self.log.append(("write", len(s)))
         if self.fail_at is not None and self.nwrite == self.fail_at:
+            if self.bare:
+                raise OSError  # an exception without arguments (args == ())
             raise OSError(errno.ENOSPC, "No space left on device (injected)")
         return self._real.write(s)
 
@@ -45,8 +48,9 @@ class FaultyFile(io.TextIOBase):
 class OpenPatch:
     """with OpenPatch(fail_at=k) as p: ...  -- p.files lists every file iodata.api opened."""
 
-    def __init__(self, fail_at=None):
+    def __init__(self, fail_at=None, bare=False):
         self.fail_at = fail_at
+        self.bare = bare
         self.files = []
         self.log = []
 
@@ -60,7 +64,7 @@ class OpenPatch:
         def opener(filename, mode="r", *a, **k):
             real = builtins.open(filename, mode, *a, **k)
             if "w" in mode:
-                f = FaultyFile(real, self.fail_at, self.log)
+                f = FaultyFile(real, self.fail_at, self.log, self.bare)
                 self.files.append(f)
                 return f
             return real
